@@ -526,14 +526,14 @@ func estOf[K comparable](s *sketch[K], k K) uint64 {
 //@   ensures [C12:entry-deadlines] result.ExpiresAtNano == pickI64(c.withExpiration, ghost_expiresAt(n), math.MaxInt64) && result.RefreshableAtNano == pickI64(c.withRefresh, ghost_refreshableAt(n), math.MaxInt64)
 //@   ensures [C12:entry-snapshot] result.SnapshotAtNano == pickI64(c.withTime, nanos, 0)
 
-//@ func (*cache).setExpiresAfterRead : C12 C03
+//@ func (*cache).setExpiresAfterRead : C12 C03 C07
 //@   requires cfg(c) && c.withExpiration && nowNano >= 0 && n != nil
 //@   requires [C03:deadline-only-live] live(n, nowNano)
 //@   modifies n.expiresAt
 //@   ensures [C12:read-exact] expiresAfter > 0 ==> ghost_expiresAt(n) == satadd(nowNano, int64(expiresAfter))
 //@   ensures [C12:read-keep] expiresAfter <= 0 ==> ghost_expiresAt(n) == pre(ghost_expiresAt(n))
 
-//@ func (*cache).calcExpiresAtAfterRead : C12 C03
+//@ func (*cache).calcExpiresAtAfterRead : C12 C03 C07
 //@   requires cfg(c) && nowNano >= 0 && n != nil
 //@   requires [C03:deadline-only-live] c.withExpiration ==> live(n, nowNano)
 //@   modifies n.expiresAt, ghost_calls_ExpireAfterRead(), ghost_ret_ExpireAfterRead()
@@ -542,7 +542,7 @@ func estOf[K comparable](s *sketch[K], k K) uint64 {
 //@   ensures [C12:read-keep] !c.withExpiration || ghost_ret_ExpireAfterRead() <= 0 ==> ghost_expiresAt(n) == pre(ghost_expiresAt(n))
 //@   ensures [C12:no-hook-unconfigured] !c.withExpiration ==> ghost_calls_ExpireAfterRead() == pre(ghost_calls_ExpireAfterRead()) && ghost_ret_ExpireAfterRead() == pre(ghost_ret_ExpireAfterRead())
 
-//@ func (*cache).calcExpiresAtAfterWrite : C12
+//@ func (*cache).calcExpiresAtAfterWrite : C12 C07
 //@   requires cfg(c) && nowNano >= 0 && n != nil && n != old
 //@   modifies n.expiresAt, ghost_calls_ExpireAfterCreate(), ghost_ret_ExpireAfterCreate(), ghost_calls_ExpireAfterUpdate(), ghost_ret_ExpireAfterUpdate()
 //@   ensures [C12:create-vs-update] c.withExpiration && !live(old, nowNano) ==> ghost_calls_ExpireAfterCreate() == pre(ghost_calls_ExpireAfterCreate()) + 1 && ghost_calls_ExpireAfterUpdate() == pre(ghost_calls_ExpireAfterUpdate())
@@ -628,7 +628,7 @@ func estOf[K comparable](s *sketch[K], k K) uint64 {
 //@   ensures [C12:entry-visible-iff-before] result == (e.ExpiresAtNano <= e.SnapshotAtNano)
 
 // per-entry overrides
-//@ func (*cache).SetExpiresAfter : C12 C03 C01 C20
+//@ func (*cache).SetExpiresAfter : C12 C03 C01 C20 C07
 //@   requires cfg(c)
 //@   modifies $MAINT, $EVLOG, ghost_now(), ghost_clockRead(), ghost_tbl(c.hashmap, key).expiresAt
 //@   ensures [C12:override-exact] c.withExpiration && expiresAfter > 0 && pre(ghost_tbl(c.hashmap, key)) != nil && pre(alive(ghost_tbl(c.hashmap, key))) && pre(ghost_expiresAt(ghost_tbl(c.hashmap, key))) > ghost_now() ==> ghost_expiresAt(pre(ghost_tbl(c.hashmap, key))) == satadd(ghost_now(), int64(expiresAfter))
@@ -815,6 +815,9 @@ func estOf[K comparable](s *sketch[K], k K) uint64 {
 //@   ensures [C05:removed-node-untracked] t != nil && pre(t.writeReason) == deleteReason ==> (c.withExpiration ==> !ghost_inWheel(pre(t.n))) && (c.withEviction ==> ghost_state(pre(t.n)) == 2 && !ghost_inDeque(queueOf(c.evictionPolicy, pre(t.n)), pre(t.n)))
 //@   ensures [C05:replaced-node-untracked] t != nil && pre(t.writeReason) == updateReason ==> (c.withEviction ==> ghost_state(pre(t.old)) == 2)
 //@   ensures [clock-stable] pre(ghost_clockRead()) ==> ghost_clockRead() && ghost_now() == pre(ghost_now())
+//@   ensures [C13:written-node-is-scheduled] t != nil && pre(t.writeReason) != deleteReason && c.withExpiration && !c.withEviction && pre(alive(t.n)) ==> ghost_inWheel(pre(t.n))
+//@   site add: requires [C13:written-node-is-scheduled-before-the-size-policy-may-evict-it] !c.withExpiration || !alive(n) || ghost_inWheel(n)
+//@   site update: requires [C13:written-node-is-scheduled-before-the-size-policy-may-evict-it] !c.withExpiration || !alive(n) || ghost_inWheel(n)
 
 //@ func (*cache).afterDelete : C01 C03 C05 C06 C09
 //@   counted
@@ -944,6 +947,7 @@ func estOf[K comparable](s *sketch[K], k K) uint64 {
 //@   ensures [C08:cancelled-compute-keeps-inflight-load] ghost_ret_remappingFunc_1() == CancelOp && lpend(ghost_lpNew(c.hashmap)) == lpend(ghost_lpCur(c.hashmap)) ==> lpend(ghost_calls(c.singleflight.calls, key)) == lp(ghost_calls(c.singleflight.calls, key))
 //@   ensures [C20:one-lookup-when-counting] recordStats ==> ghost_hits()+ghost_misses() == pre(ghost_hits()+ghost_misses()) + 1 && ghost_hits() == pre(ghost_hits()) + pickU64(lp(live(ghost_tbl(c.hashmap, key), nowNano)), 1, 0)
 //@   ensures [C20:quiet-otherwise] !recordStats ==> ghost_hits() == pre(ghost_hits()) && ghost_misses() == pre(ghost_misses())
+//@   ensures [C09:invalidation-clears-call-even-without-an-entry] ghost_ret_remappingFunc_1() == InvalidateOp && c.singleflight.isInitialized.Load() ==> lpend(ghost_calls(c.singleflight.calls, key)) == nil
 
 //@ func (*cache).Compute : C01 C03 C06 C09 C20
 //@   panics
